@@ -52,6 +52,12 @@ func (c *Counter) Incr(key string) {
 		return
 	}
 
+	// a counter without capacity can't record anything.
+	if c.capacity == 0 {
+		c.mu.Unlock()
+		return
+	}
+
 	// record
 	if uint8(len(c.items)) >= c.capacity {
 		// evict the least frequently used item
